@@ -90,6 +90,18 @@ def decl_order(structs):
     return ([inner] if uses_inner else []) + decls
 
 
+def pascal_names(s, out=None):
+    """Pascal-cased names of all fields in the tree of s (any depth)"""
+    out = out if out is not None else []
+    for m in s["members"]:
+        if m["k"] == "f":
+            out.append("".join(p[:1].upper() + p[1:] for p in m["name"].split("_") if p))
+        else:
+            out.append(m["decl"]["name"])
+            pascal_names(m["decl"], out)
+    return out
+
+
 def embeds_of(s, out=None):
     out = out if out is not None else []
     for m in s["members"]:
@@ -137,6 +149,10 @@ def gen_new_pkg(rng, force=None):
             if rank[j] < rank[i] and not u.get("tparams") and rng.random() < pc / max(1, n - 1) * 1.5:
                 if u["name"] in embeds_of(s):
                     continue
+                # keep promoted accessors unambiguous (Go's selector rule decides AssignableToIface; see Spec/GenState.lean `assignableSure`)
+                if set(pascal_names(u)) & set(pascal_names(s)) or len(set(pascal_names(u))) != len(pascal_names(u)):
+                    if rng.random() < 0.9:
+                        continue
                 e = {"k": "e", "decl": u, "ptr": rng.random() < 0.4, "new": False, "pkg": None}
                 s["members"].insert(rng.randint(0, len(s["members"])), e)
                 cross += 1
